@@ -24,6 +24,7 @@ import (
 	"grog/internal/label"
 	"grog/internal/model"
 	"grog/internal/output"
+	"grog/internal/proto/gen"
 	"grog/internal/zverif/explore"
 	"grog/internal/zverif/vrep"
 	"grog/internal/zverif/vs"
@@ -34,11 +35,34 @@ import (
 type pointBackend struct {
 	mu    sync.Mutex
 	store map[string][]byte
+	// quiet: no scheduling points (set-up outside the scheduler)
+	quiet bool
+	// returned: the call under test has returned; operations after that are recorded in late
+	returned bool
+	late     []string
+}
+
+func (b *pointBackend) point(site string) {
+	b.mu.Lock()
+	q := b.quiet
+	if b.returned {
+		b.late = append(b.late, site)
+	}
+	b.mu.Unlock()
+	if !q {
+		vs.Point(site)
+		// the operation is performed now: has the call under test returned in the meantime?
+		b.mu.Lock()
+		if b.returned && (len(b.late) == 0 || b.late[len(b.late)-1] != site) {
+			b.late = append(b.late, site)
+		}
+		b.mu.Unlock()
+	}
 }
 
 func (b *pointBackend) TypeName() string { return "points" }
 func (b *pointBackend) Get(ctx context.Context, path, key string) (io.ReadCloser, error) {
-	vs.Point("backend.Get")
+	b.point("backend.Get")
 	b.mu.Lock()
 	defer b.mu.Unlock()
 	d, ok := b.store[path+"/"+key]
@@ -48,12 +72,12 @@ func (b *pointBackend) Get(ctx context.Context, path, key string) (io.ReadCloser
 	return io.NopCloser(bytes.NewReader(d)), nil
 }
 func (b *pointBackend) Set(ctx context.Context, path, key string, content io.Reader) error {
-	vs.Point("backend.Set")
+	b.point("backend.Set")
 	data, err := io.ReadAll(content)
 	if err != nil {
 		return err
 	}
-	vs.Point("backend.Set:commit")
+	b.point("backend.Set:commit")
 	b.mu.Lock()
 	b.store[path+"/"+key] = data
 	b.mu.Unlock()
@@ -61,7 +85,7 @@ func (b *pointBackend) Set(ctx context.Context, path, key string, content io.Rea
 }
 func (b *pointBackend) Delete(ctx context.Context, path, key string) error { return nil }
 func (b *pointBackend) Exists(ctx context.Context, path, key string) (bool, error) {
-	vs.Point("backend.Exists")
+	b.point("backend.Exists")
 	b.mu.Lock()
 	defer b.mu.Unlock()
 	_, ok := b.store[path+"/"+key]
@@ -75,9 +99,71 @@ var first = map[string]string{}
 type scenario struct {
 	Outputs int    `json:"outputs"`
 	Kind    string `json:"kind"` // files | file+dir
+	// Load: restore the outputs (Registry.LoadOutputs) with the blob of output Missing absent from the cache
+	Load    bool `json:"load,omitempty"`
+	Missing int  `json:"missing_blob_of_output,omitempty"`
 }
 
-func (sc scenario) name() string { return fmt.Sprintf("outputs=%d/%s", sc.Outputs, sc.Kind) }
+func (sc scenario) name() string {
+	if sc.Load {
+		return fmt.Sprintf("load/outputs=%d/%s/missing=%d", sc.Outputs, sc.Kind, sc.Missing)
+	}
+	return fmt.Sprintf("outputs=%d/%s", sc.Outputs, sc.Kind)
+}
+
+// runLoad: the outputs are written to the cache outside the scheduler, one blob is removed, the workspace
+// copies are deleted; then the real Registry.LoadOutputs runs under the scheduler. It has to report the
+// missing blob, and when it returns none of its loaders may still be running: the caller reacts to the
+// error by re-executing the target, whose command would race with a restore that is still in progress.
+func (sc scenario) runLoad(t *testing.T, cfg vs.Config, ws string, tgt *model.Target, contents []string) explore.Exec {
+	ctx := console.WithLogger(context.Background(), nop)
+	be := &pointBackend{store: map[string][]byte{}}
+	var tr *gen.TargetResult
+	var err error
+	// set-up under the canonical schedule: the order of the outputs in the stored result is then the same in every execution
+	vs.Run(t, vs.Config{Horizon: cfg.Horizon, MaxSteps: cfg.MaxSteps}, func() {
+		tr, err = output.NewRegistry(ctx, caching.NewCas(be)).WriteOutputs(ctx, tgt, nil)
+	})
+	if err != nil || tr == nil {
+		return explore.Exec{Res: &vs.Result{}, Findings: []explore.Finding{{Sig: "LOAD:set-up-write-fails", Detail: fmt.Sprint(err)}}}
+	}
+	removed := 0
+	for k, v := range be.store {
+		if string(v) == contents[sc.Missing] {
+			delete(be.store, k)
+			removed++
+		}
+	}
+	os.RemoveAll(filepath.Join(ws, "p"))
+	os.MkdirAll(filepath.Join(ws, "p"), 0o755)
+	tgt.OutputsLoaded = false
+	var lerr error
+	res := vs.Run(t, cfg, func() {
+		reg := output.NewRegistry(ctx, caching.NewCas(be))
+		lerr = reg.LoadOutputs(ctx, tgt, tr, nil)
+		be.mu.Lock()
+		be.returned = true
+		be.mu.Unlock()
+	})
+	ex := explore.Exec{Res: res}
+	if removed != 1 {
+		ex.Findings = append(ex.Findings, explore.Finding{Sig: "LOAD:set-up-broken", Detail: fmt.Sprintf("%d blobs with content %q", removed, contents[sc.Missing])})
+	}
+	if res.Deadlock {
+		ex.Findings = append(ex.Findings, explore.Finding{Sig: "LOAD:load-outputs-never-returns", Detail: fmt.Sprint(res.Blocked)})
+	} else if lerr == nil {
+		ex.Findings = append(ex.Findings, explore.Finding{Sig: "LOAD:load-outputs-succeeds-although-a-blob-is-missing", Detail: fmt.Sprintf("the blob of output %d is not in the cache but LoadOutputs returned nil", sc.Missing)})
+	}
+	be.mu.Lock()
+	late := append([]string{}, be.late...)
+	be.mu.Unlock()
+	if len(late) > 0 {
+		ex.Findings = append(ex.Findings, explore.Finding{Sig: "LOAD:load-outputs-returns-while-its-loaders-still-run", Detail: fmt.Sprintf("LoadOutputs returned (%v) and afterwards loaders of the same target performed %v: the caller re-executes the target on this error, so the command races with a restore that still removes / writes the output paths", lerr, late)})
+	}
+	ex.Outcome = fmt.Sprintf("err=%v late=%d", lerr != nil, len(late))
+	ex.Nontrivial = true
+	return ex
+}
 
 func (sc scenario) run(t *testing.T, cfg vs.Config) explore.Exec {
 	ws, _ := os.MkdirTemp(scratch, "ws")
@@ -86,16 +172,22 @@ func (sc scenario) run(t *testing.T, cfg vs.Config) explore.Exec {
 	config.Global.Root = filepath.Join(ws, ".root")
 	os.MkdirAll(filepath.Join(ws, "p"), 0o755)
 	tgt := &model.Target{Label: label.TL("p", "t"), ChangeHash: "ch"}
+	var contents []string
 	for i := 0; i < sc.Outputs; i++ {
 		if sc.Kind == "file+dir" && i == 0 {
 			os.MkdirAll(filepath.Join(ws, "p", "d0"), 0o755)
 			os.WriteFile(filepath.Join(ws, "p", "d0", "f"), []byte("in-dir"), 0o644)
 			tgt.Outputs = append(tgt.Outputs, model.NewOutput("dir", "d0"))
+			contents = append(contents, "in-dir")
 			continue
 		}
 		name := fmt.Sprintf("o%d.txt", i)
 		os.WriteFile(filepath.Join(ws, "p", name), []byte(fmt.Sprintf("content-%d", i)), 0o644)
 		tgt.Outputs = append(tgt.Outputs, model.NewOutput("file", name))
+		contents = append(contents, fmt.Sprintf("content-%d", i))
+	}
+	if sc.Load {
+		return sc.runLoad(t, cfg, ws, tgt, contents)
 	}
 	var hash string
 	var werr error
@@ -141,7 +233,15 @@ func TestVerif(t *testing.T) {
 	config.Global.HashAlgorithm = ""
 	bound := vrep.EnvInt("VERIF_BOUND", 2)
 	deadline := time.Now().Add(time.Duration(vrep.EnvInt("VERIF_BUDGET_S", 20)) * time.Second)
-	scs := []scenario{{2, "files"}, {3, "files"}, {2, "file+dir"}}
+	scs := []scenario{{Outputs: 2, Kind: "files"}, {Outputs: 3, Kind: "files"}, {Outputs: 2, Kind: "file+dir"}}
+	if os.Getenv("VERIF_OUTORDER_MODE") == "load" {
+		scs = nil
+		for _, k := range []scenario{{Outputs: 2, Kind: "files"}, {Outputs: 3, Kind: "files"}, {Outputs: 2, Kind: "file+dir"}} {
+			for m := 0; m < k.Outputs; m++ {
+				scs = append(scs, scenario{Outputs: k.Outputs, Kind: k.Kind, Load: true, Missing: m})
+			}
+		}
+	}
 	mk := func(sc scenario) explore.Scenario {
 		return explore.Scenario{Name: sc.name(), Desc: sc, Run: sc.run, Horizon: 2, MaxSteps: 3000}
 	}
